@@ -24,7 +24,7 @@ PROPS: Dict[str, Dict[str, Any]] = {
                           "`recPre` does not raise) ends in Valid or Invalid; side conditions discharged for the typed string and "
                           "list predicates; termination in general is decided by the correspondence and the oracle only; D2 / "
                           "D3 are the open findings where the real code does raise",
-            "stream": "core", "opts": {"salt": "c01", "special_rate": 0.05},
+            "stream": "core", "opts": {"salt": "c01", "special_rate": 0.05, "zero_factor_rate": 0.12},
             "quick_n": 8000, "thorough_n": 200000, "fields": ["out"]},
     "C03": {"theorems": ["loopItems_iff", "ItemsRun.sound", "ItemsRun.complete", "ItemsRun.sorted", "ItemsRun.length",
                          "ItemsRun.all_valid", "loopItems_hash", "C03_seq_container_first", "C03_pre_iff",
@@ -204,13 +204,19 @@ def _replay_schema(case: dict) -> List[str]:
     return schema_stream.replay_case(case)
 
 
-PROPS["C10"] = {"theorems": ["C10_outcome", "C10_json_only_partial", "C10_ref", "C10_nonrecurrent", "C10_lazy_unnamed",
-                             "predSchema_outcome", "jsonOnlyO_jaddPred"],
+PROPS["C10"] = {"theorems": ["C10_outcome", "C10_json_only_partial", "C10_wellformed_partial", "D26_witness", "C10_ref",
+                             "C10_nonrecurrent", "C10_lazy_unnamed", "predSchema_outcome", "jsonOnlyO_jaddPred",
+                             "wfO_jaddPred", "predSchema_wf"],
+                "modules": ["KodaModel.Properties.C10", "KodaModel.Properties.C10WF"],
                 "level_note": "proved for the model `toSchema`: object-or-TypeError for every tree (given CPython's printers are "
-                              "total), JSON types only for trees with admitted finite parameters (D11 is the excluded case), a "
-                              "Lazy is never followed; validity against the Draft 2020-12 metaschema, strict serialisation, "
-                              "determinism across the process history and 'validator unmodified' are decided on the real code "
-                              "by the oracle, and the model is tied to the real generator by comparing the two schemas",
+                              "total), JSON types only for trees with admitted finite parameters (D11 is the excluded case), "
+                              "well-formedness (C10_wellformed_partial: every emitted keyword carries a value of the shape the "
+                              "Draft 2020-12 metaschema demands, for trees with non-negative length / count parameters - D26 "
+                              "is the excluded case, D26_witness - finite numeric bounds and non-empty unions; uniqueness of "
+                              "the names in `required`, D27b, is not captured), a Lazy is never followed; validity against "
+                              "the full metaschema, strict serialisation, determinism across the process history and "
+                              "'validator unmodified' are decided on the real code by the oracle, and the model is tied to "
+                              "the real generator by comparing the two schemas",
                 "run": _run_schema, "replay": _replay_schema,
                 "rule": "validator trees over every built-in validator and predicate kind (supported and unsupported), every "
                         "admitted parameter type, records with 0-4 keys, unions, optionals, recursive Lazy; to_json_schema and "
